@@ -265,6 +265,9 @@ pub enum Op {
     RemoveWeak { ks: KsIdx, key: u8 },
     Batch { items: Vec<BItem>, dur: Option<Dur> },
     Clear { ks: KsIdx },
+    /// a batch is filled, then keyspace `ks` (which has items in it) is deleted, then the batch
+    /// is committed
+    BatchDeleteCommit { items: Vec<BItem>, ks: KsIdx },
     /// sorted by key; None = tombstone
     Ingest { ks: KsIdx, items: Vec<(u8, Option<Val>)> },
     /// helper single-ops of the transactional keyspace wrappers
